@@ -3,8 +3,10 @@
 From Coq Require Import Bool List NArith ZArith Lia.
 From M Require Framing2.
 From M Require Framing3.
+From M Require Framing4.
 From M Require Tie.
 From M Require Framing2.
+From M Require Framing3.
 From M Require ParserModel.
 Import ListNotations.
 
@@ -79,6 +81,10 @@ Theorem C06_script_framing_streamed :
 Proof. exact (@Framing3.script_framing_streamed). Qed.
 End T_script_framing_streamed.
 Definition C06_script_framing_streamed := @T_script_framing_streamed.C06_script_framing_streamed.
+
+Definition C06_framing_g := @Framing4.framing_g.
+
+Definition C06_framing_streamed := @Framing4.framing_streamed.
 
 Module T_tie_line_ending. Import Tie. Local Open Scope bool_scope. Local Open Scope Z_scope.
 Local Open Scope Z_scope.
